@@ -354,11 +354,27 @@ let rook_identity_pairs (r : rng) (count : int) : (spos * spos) list =
 (* ---------- pawn skeletons (C18) ---------- *)
 let pawn_skeleton (r : rng) : spos option =
   let a = empty_board () in
-  let n = rand r 17 in
-  for _ = 1 to n do
-    let q = 8 + rand r 48 in
-    a.(q) <- Some ((if chance r 1 2 then White else Black), Pawn)
-  done;
+  (match rand r 4 with
+   | 0 ->
+     (* the full complement: one pawn of each colour on every file, ranks independent (pawns may have passed each other) *)
+     for f = 0 to 7 do
+       let rw = 1 + rand r 6 in
+       let rb = let x = 1 + rand r 5 in if x >= rw then x + 1 else x in
+       a.(rw * 8 + f) <- Some (White, Pawn); a.(rb * 8 + f) <- Some (Black, Pawn)
+     done
+   | 1 ->
+     (* dense files: several pawns of one colour stacked on a few files, the other colour's home pawns behind them *)
+     for _ = 1 to 2 + rand r 3 do
+       let f = rand r 8 in
+       let c = if chance r 1 2 then White else Black in
+       for rk = 1 to 6 do if chance r 2 3 then a.(rk * 8 + f) <- Some ((if chance r 5 6 then c else opp_side c), Pawn) done
+     done
+   | _ ->
+     let n = rand r 17 in
+     for _ = 1 to n do
+       let q = 8 + rand r 48 in
+       a.(q) <- Some ((if chance r 1 2 then White else Black), Pawn)
+     done);
   let free () = let l = ref [] in Array.iteri (fun i c -> if c = None then l := i :: !l) a; !l in
   let wk = pick r (free ()) in
   a.(wk) <- Some (White, King);
